@@ -167,7 +167,7 @@ func genC10(g *Gen, idx int) *Plan {
 		sg.gap(20, 3000)
 		sg.add(scriptPkt(g, s))
 	}
-	p.Peers = []PeerPlan{{Name: "p1", Ops: sg.ops, Policy: PeerPolicy{Will: "ignore"}}}
+	p.Peers = []PeerPlan{{Name: "p1", Ops: sg.ops, Policy: PeerPolicy{Will: "ignore", NoWait: true}}}
 	p.Broker.SilentTypes = []string{"CONNECT"}
 	p.Cfg.HorizonMs = sg.t + 9000
 	return p
@@ -401,6 +401,11 @@ func genC13(g *Gen, idx int) *Plan {
 		peer.Policy.Will = "ignore"
 	}
 	peer.Ops = sg.ops
+	for i := range peer.Ops {
+		if peer.Ops[i].AtMs >= at {
+			peer.Ops[i].NoWait = true // the cause strikes at its instant, whatever the session is waiting for
+		}
+	}
 	p.Peers = []PeerPlan{peer}
 	p.Cfg.HorizonMs = at + 7000
 	return p
@@ -470,10 +475,32 @@ func oracleC34(v *View, vd *Verdict) {
 func genC34(g *Gen, idx int) *Plan {
 	cfg := g.BaseCfg()
 	cfg.Sched = g.Sched("gateway/handler1.go")
-	kind := idx % 7
+	kind := idx % 8
 	p := &Plan{Family: fmt.Sprintf("C34-life%d", kind), Cfg: cfg}
 	sg := &sessGen{g: g, cid: "c1"}
 	sg.gap(5, 300)
+	if kind == 7 {
+		// a long sleep (the gateway pings the broker for the client), then, still asleep, the client
+		// announces a short one and vanishes: the bound is set by the *last* announced duration
+		ka := uint16(g.Range(3, 8))
+		sg.add(connectPkt("c1", ka, false, true))
+		sg.gap(300, 900)
+		d1 := ka + uint16(g.Range(10, 40))
+		sg.add(refsn.Pkt{Type: refsn.DISCONNECT, HasDur: true, Duration: d1})
+		sg.gap(300, int64(ka)*1000+2000)
+		if g.Bool(0.3) {
+			sg.add(refsn.Pkt{Type: refsn.PINGREQ, Data: []byte("c1")})
+			sg.gap(200, 1500)
+		}
+		d2 := uint16(g.Range(1, int64(ka)))
+		sg.add(refsn.Pkt{Type: refsn.DISCONNECT, HasDur: true, Duration: d2})
+		last := sg.t
+		p.Peers = []PeerPlan{{Name: "p1", Ops: sg.ops, Policy: PeerPolicy{SilentAtMs: last + 1}}}
+		p.Broker.EnforceKA = true
+		p.Broker.NoConnectMs = 5000
+		p.Cfg.HorizonMs = last + int64(d1)*1000 + int64(ka)*3000 + 6000
+		return p
+	}
 	if kind == 0 {
 		sg.add([]refsn.Pkt{{Type: refsn.WILLTOPIC, TopicName: "w", Will: true}, {Type: refsn.WILLMSG, Data: []byte("x")}, authPkt(g, 0)}[g.Intn(3)])
 	} else {
@@ -514,7 +541,7 @@ func init() {
 		Rule:   "same script x cause space as C13; an MQTT DISCONNECT on a session's broker stream must be the translation of a consumed plain MQTT-SN DISCONNECT; non-trivial = session ended or an MQTT DISCONNECT was written",
 		Gen:    func(g *Gen, idx int) *Plan { p := genC13(g, idx); p.Family = strings.Replace(p.Family, "C13", "C14", 1); return p }, Oracle: oracleC14, Quick: 560, Thorough: 28000})
 	Register(&Check{ID: "C34", Level: "fault_enumeration",
-		Rule:   "the C13 session scripts cut at a seeded event index after which the peer is silent forever; broker model enforces keep-alive (drops after 1.5 x KA without a packet) and drops connections without CONNECT after 5 s; keep-alive 3-12 s, sleeps 1-25 s; deadline by state: accept+5 s / last CONNECT+5 s before connecting, last activity + 1.5 KA active/awake, + announced sleep asleep, + 200 ms poll + 3 ms; non-trivial = every session",
+		Rule:   "the C13 session scripts (plus: long sleep, then a short one announced while asleep) cut at a seeded event index after which the peer is silent forever; broker model enforces keep-alive (drops after 1.5 x KA without a packet) and drops connections without CONNECT after 5 s; keep-alive 3-12 s, sleeps 1-25 s; deadline by state: accept+5 s / last CONNECT+5 s before connecting, last activity + 1.5 KA active/awake, + announced sleep asleep, + 200 ms poll + 3 ms; non-trivial = every session",
 		Gen:    genC34, Oracle: oracleC34, Quick: 420, Thorough: 14000})
 }
 
